@@ -186,6 +186,27 @@ def run_shard(ctx):
     for k, depth in enumerate([1, 5, 12, 20, 26, 27, 28, 31, 32, 33, 40, 64]):
         if ctx.mine(k):
             compare(ctx, deep_form(depth, ctx.rng("deep", depth)), "deep-nesting", f"depth{depth}")
+    # namespace declarations written as attribute columns: one prefix bound to different URIs on different rows, a local re-binding of a prefix the
+    # root declares (from the namespaces setting), declarations on binds / controls / instance nodes: each prefixed attribute keeps its own namespace
+    kk = 100
+    for cols in (("bind", "bind"), ("instance", "instance"), ("body", "body"), ("bind", "instance"), ("instance", "body")):
+        for root_decl in (False, True):
+            for nest in (False, True):
+                kk += 1
+                if not ctx.mine(kk):
+                    continue
+                from ..model import Row
+                q1 = Row("q", "text", "a1", {"label": "A", f"{cols[0]}::xmlns:ex": "http://example.org/v1", f"{cols[0]}::ex:unit": "kg"})
+                q2 = Row("q", "text", "b2", {"label": "B", f"{cols[1]}::xmlns:ex": "http://example.org/v2", f"{cols[1]}::ex:unit": "lb"})
+                q3 = Row("q", "text", "c3", {"label": "C"})
+                if root_decl:
+                    q3.cells["bind::ex:unit"] = "none"
+                f = gen.simple_form([])
+                f.survey = [Row("group", "begin group", "g", {"label": "G"}, [q1, q2]), q3] if nest else [q1, q2, q3]
+                if root_decl:
+                    f.settings["namespaces"] = 'ex="http://example.org/v0"'
+                compare(ctx, f, "namespace-columns", f"ns-cols|{cols}|{root_decl}|{nest}")
+                ctx.ctr("namespace_column_forms")
     for i in range(pl["n"]):
         if not ctx.mine(i):
             continue
